@@ -20,6 +20,8 @@ pub enum Op {
     Reset,
     /// trait-level reset (digest::Reset), when available
     TraitReset,
+    /// trait-level resetting finalizers (FixedOutputReset::finalize_fixed_reset, ExtendableOutputReset::finalize_xof_reset, Mac::finalize_reset)
+    TraitFinalizeReset(u8),
     Clone,
     Swap,
 }
@@ -118,11 +120,30 @@ pub fn check(c: &Case) -> Result<(), String> {
             }
             Op::Finalize | Op::FinalizeNonRoot | Op::Count => observe(&what, &slots[cur], 0)?,
             Op::FinalizeXof(n) => observe(&what, &slots[cur], *n as usize)?,
-            Op::Reset | Op::TraitReset => {
+            Op::TraitFinalizeReset(_) if slots[cur].model.base != 0 => {
+                // finalize() is documented to panic while an input offset is set: outside the domain
+            }
+            Op::Reset | Op::TraitReset | Op::TraitFinalizeReset(_) => {
                 let s = &mut slots[cur];
                 match op {
                     #[cfg(feature = "full")]
                     Op::TraitReset => blake3::traits::digest::Reset::reset(&mut s.h),
+                    #[cfg(feature = "full")]
+                    Op::TraitFinalizeReset(k) => {
+                        use blake3::traits::digest as dg;
+                        let want = s.model.output().hash();
+                        let got: Vec<u8> = match k % 3 {
+                            0 => dg::FixedOutputReset::finalize_fixed_reset(&mut s.h).to_vec(),
+                            1 => {
+                                let mut r = dg::ExtendableOutputReset::finalize_xof_reset(&mut s.h);
+                                let mut o = vec![0u8; 32];
+                                dg::XofReader::read(&mut r, &mut o);
+                                o
+                            }
+                            _ => dg::Mac::finalize_reset(&mut s.h).into_bytes().to_vec(),
+                        };
+                        eq_bytes(&format!("{}: output of the resetting finalizer", what), &got, &want)?;
+                    }
                     _ => {
                         s.h.reset();
                     }
@@ -196,7 +217,8 @@ pub fn classify(c: &Case) -> Classes {
                     l.after_reset += n as u64;
                 }
             }
-            Op::Reset | Op::TraitReset => {
+            Op::TraitFinalizeReset(_) if ls[cur].base != 0 => {}
+            Op::Reset | Op::TraitReset | Op::TraitFinalizeReset(_) => {
                 let l = &mut ls[cur];
                 let dirty = l.base != 0 || l.n > 1024 || l.n % 1024 != 0;
                 reset_with_offset |= l.base != 0;
@@ -259,6 +281,7 @@ fn op_strategy(max_abs: u32) -> BoxedStrategy<Op> {
         1 => Just(Op::Count),
         4 => Just(Op::Reset),
         1 => Just(Op::TraitReset),
+        2 => (0u8..3).prop_map(Op::TraitFinalizeReset),
         1 => Just(Op::Clone),
         1 => Just(Op::Swap),
     ]
@@ -277,7 +300,7 @@ fn strategy(tier: Tier) -> BoxedStrategy<Case> {
 pub fn subs() -> Vec<Box<dyn DynSub>> {
     vec![Box::new(PropSub::<Case> {
         name: "reset-histories",
-        rule: "proptest: histories of set_input_offset (chunk-index lattice up to 2^54-1, applied only while count()==0) / update (sizes resolved against the running total and clamped to the offset's max subtree length) / finalize / finalize_xof / finalize_non_root / count / reset (inherent and digest::Reset) / clone / swap; after each reset a freshly constructed hasher of the same mode runs the suffix in lockstep and both are compared with each other and with the spec subtree model after every op; non-trivial = a reset of a hasher that had an offset, a non-empty CV stack or a partial chunk, followed by > 1 chunk of input",
+        rule: "proptest: histories of set_input_offset (chunk-index lattice up to 2^54-1, applied only while count()==0) / update (sizes resolved against the running total and clamped to the offset's max subtree length) / finalize / finalize_xof / finalize_non_root / count / reset (inherent, digest::Reset and the resetting trait finalizers finalize_fixed_reset / finalize_xof_reset / Mac::finalize_reset) / clone / swap; after each reset a freshly constructed hasher of the same mode runs the suffix in lockstep and both are compared with each other and with the spec subtree model after every op; non-trivial = a reset of a hasher that had an offset, a non-empty CV stack or a partial chunk, followed by > 1 chunk of input",
         cases: (40_000, 400_000),
         strategy,
         classify,
